@@ -119,6 +119,20 @@ func genProgram(t *rapid.T) peng.Case {
 	if c.N >= 2 && rapid.IntRange(0, 2).Draw(t, "downNode") == 0 {
 		c.Down = []int{rapid.IntRange(0, c.N-1).Draw(t, "down")}
 	}
+	// transient faults: single stream writes that fail, connections that break under a server that
+	// keeps listening - the calls they end leave nothing behind either
+	switch rapid.IntRange(0, 7).Draw(t, "fault") {
+	case 0:
+		c.Mgrs[0].FailSendAt = rapid.SliceOfNDistinct(rapid.IntRange(1, 200), 1, 3, rapid.ID[int]).Draw(t, "failSendAt")
+	case 1:
+		k := rapid.IntRange(1, 3).Draw(t, "ncut")
+		for i := 0; i < k; i++ {
+			op := peng.Op{Kind: "cut", Thread: rapid.IntRange(0, c.Threads-1).Draw(t, fmt.Sprintf("cutThread%d", i)),
+				Call: scen.CallSpec{Node: rapid.IntRange(0, c.N-1).Draw(t, fmt.Sprintf("cutNode%d", i))}}
+			at := rapid.IntRange(0, len(c.Ops)).Draw(t, fmt.Sprintf("cutAt%d", i))
+			c.Ops = append(c.Ops[:at], append([]peng.Op{op}, c.Ops[at:]...)...)
+		}
+	}
 	return c
 }
 
@@ -296,7 +310,7 @@ func run(cc Case) vt.Verdict {
 func TestProp(t *testing.T) {
 	vt.Main(t, vt.Spec[Case]{
 		ID:           "C18",
-		Rule:         "rapid-generated sequences of 10-120 calls of all 20 kinds from 1-4 threads, each ending in a generated way (quorum before all replies, exhaustion, cancellation/deadline before or after the send, node error, correctable done, stream abandoned, zero targets, future never read), in half of the cases with seeded jitter at the statement-level yield points of the instrumented runtime; in a third of the cases one node unreachable since it was registered; 1 case in 20 instead makes 1-12 calls of 9 kinds to a node behind a raw server that answers two thirds of them under another method's name (the calls end with that node's error); after the sequence every handler has returned (all gates open), every call has ended and a fence RPC to every node has completed; then, polling up to the hang bound, the number of routing entries of every node (read-only accessor injected at build time) must be 0 and no goroutine may sit in a per-call frame (async handler, correctable handler, send watcher); non-trivial (measured) = at least 3 distinct ways of ending in the sequence",
+		Rule:         "rapid-generated sequences of 10-120 calls of all 20 kinds from 1-4 threads, each ending in a generated way (quorum before all replies, exhaustion, cancellation/deadline before or after the send, node error, correctable done, stream abandoned, zero targets, future never read), in half of the cases with seeded jitter at the statement-level yield points of the instrumented runtime; in a third of the cases one node unreachable since it was registered; in a quarter of the cases transient faults (1-3 injected failures of single stream writes, or 1-3 cuts of the connections to a server that keeps listening); 1 case in 20 instead makes 1-12 calls of 9 kinds to a node behind a raw server that answers two thirds of them under another method's name (the calls end with that node's error); after the sequence every handler has returned (all gates open), every call has ended and a fence RPC to every node has completed; then, polling up to the hang bound, the number of routing entries of every node (read-only accessor injected at build time) must be 0 and no goroutine may sit in a per-call frame (async handler, correctable handler, send watcher); non-trivial (measured) = at least 3 distinct ways of ending in the sequence",
 		Gen:          gen,
 		Run:          run,
 		TrackCurrent: true,
